@@ -45,7 +45,7 @@ class C02(Prop):
             "oracle: non-empty output datagrams == one entry per captured datagram with STREAM data, in capture order; "
             "non-trivial = at least one datagram with stream data was captured; distinct = spec digests")
     reach = ["suite_1301", "suite_1302", "suite_1303", "suite_1304", "negotiated_not_first_offered", "zero_len_cid_client",
-             "zero_len_cid_server", "retry", "zero_rtt", "crypto_out_of_order", "crypto_multi_packet", "coalesced_3_types",
+             "zero_len_cid_server", "retry", "one_way_capture", "zero_rtt", "crypto_out_of_order", "crypto_multi_packet", "coalesced_3_types",
              "key_update", "key_updates_ge_2", "cid_switch", "pnlen_1", "pnlen_4", "pn_skip", "stream_no_length",
              "multi_stream_frames", "net_dup", "net_loss", "net_reorder", "ipv6", "multi_conn"]
 
@@ -171,6 +171,8 @@ class C02(Prop):
                 out.count("reach:zero_len_cid_server")
             if q["retry"]:
                 out.count("reach:retry")
+            if q.get("one_way"):
+                out.count("reach:one_way_capture")
             if q["zero_rtt"]:
                 out.count("reach:zero_rtt")
             if q["ch_order"] != sorted(q["ch_order"]) and len(q["ch_order"]) > 1:
